@@ -15,3 +15,8 @@ pub assume_specification [<shared_state::redirector_wrapper::RedirectorSharedSta
     ensures r == *a;
 #[verifier::external_body]
 pub broadcast proof fn axiom_fmt_key_status() ensures #[trigger] vstd::std_specs::fmt::fmt_req_all::<key_keeper::key::KeyStatus>() {}
+#[verifier::external_type_specification] #[verifier::external_body]
+pub struct ExInstant(std::time::Instant);
+pub assume_specification [std::time::Instant::now] () -> std::time::Instant;
+pub assume_specification [std::time::Instant::elapsed] (_0: &std::time::Instant) -> std::time::Duration;
+pub assume_specification [std::time::Duration::as_millis] (_0: &std::time::Duration) -> u128;
